@@ -9,7 +9,7 @@ def _c11_project(op, line):
     return line
 
 PROPS["C11"] = {
-    "families": {"codec": {"quick": 1500, "thorough": 60000}},
+    "families": {"codec": {"quick": 6000, "thorough": 120000}},
     "relevant": _c11_relevant,
     "project": _c11_project,
     "mon_clauses": ["rejects_order", "rejects_length", "accepts_wf", "fields_faithful", "parsed_sections", "retrievable", "raw_unchanged",
